@@ -143,6 +143,11 @@ func RunSingleModelJSON(r io.Reader, w io.Writer, splitOutputs bool) {
 	}
 
 	defer func() {
+		if r := recover(); r != nil {
+			// answer with a document describing the problem rather than dying
+			results = RunResults{}
+			log(fmt.Sprintf("Error running model: %v", r))
+		}
 		encodeResults(w, runLogs, results, description, splitOutputs)
 	}()
 
